@@ -23,6 +23,7 @@ import itertools
 import json
 import os
 import sys
+import warnings
 
 import numpy as np
 
@@ -288,7 +289,9 @@ class Runner:
             r = self.query(m, raw, final, style)
         except Exception as e:  # noqa: BLE001
             want = self.geom.fresh[(METHS[m], raw)]
-            if want[0] != ecode(e) or want[1] != type(e).__name__:
+            if isinstance(e, arim.exceptions.ArimWarning):
+                self.bad.append(("reassign", f"{METHS[m]}({raw}): {e}", False))
+            elif want[0] != ecode(e) or want[1] != type(e).__name__:
                 self.bad.append(("transparent", f"{METHS[m]}({raw}) raises {type(e).__name__}, a fresh uncached "
                                  f"object answers {want}", True))
             self.snap(ecode(e), None)
@@ -297,6 +300,16 @@ class Runner:
         return False
 
     def step(self, op):
+        # a cached object must never reassign a key (helpers.Cache.__setitem__ warns): make the
+        # warning an exception, which then shows up as an outcome differing from the fresh object
+        if self.uc:
+            with warnings.catch_warnings():
+                warnings.simplefilter("error", category=arim.exceptions.ArimWarning)
+                self.step_(op)
+        else:
+            self.step_(op)
+
+    def step_(self, op):
         kind = op[0]
         if kind == 0:
             _, m, raw, final, style = op
@@ -325,6 +338,9 @@ class Runner:
             except Exception as e:  # noqa: BLE001
                 got = (ecode(e), type(e).__name__)
                 self.snap(ecode(e))
+                if isinstance(e, arim.exceptions.ArimWarning):
+                    self.bad.append(("reassign", f"{CLIENTS[c]}: {e}", False))
+                    got = self.geom.fresh_client[c]
             else:
                 got = (7, ahash(r))
                 self.snap(7)
@@ -355,7 +371,9 @@ class Runner:
             r = self.query(m, raw, final, 2)
         except Exception as e:  # noqa: BLE001
             want = self.geom.fresh[(METHS[m], raw)]
-            if want[0] != ecode(e):
+            if isinstance(e, arim.exceptions.ArimWarning):
+                self.bad.append(("reassign", f"{METHS[m]}({raw}): {e}", False))
+            elif want[0] != ecode(e):
                 self.bad.append(("transparent", f"{METHS[m]}({raw}) raises {type(e).__name__}, a fresh uncached "
                                  f"object answers {want}", True))
             self.snap(ecode(e), None)
